@@ -987,7 +987,9 @@ fn gen_var(rng: &mut Rng, n_fds: usize) -> Var {
     let n_ivd = 1 + rng.below(3) as usize;
     let ivds: Vec<Vec<u16>> = (0..n_ivd)
         .map(|_| {
-            let k = 1 + rng.below(3) as usize;
+            // k = 0: an ItemVariationData that lists no regions (blend then takes n operands and
+            // leaves the n defaults)
+            let k = if rng.chance(1, 6) { 0 } else { 1 + rng.below(3) as usize };
             (0..k).map(|_| rng.below(n_regions as u64) as u16).collect()
         })
         .collect();
